@@ -16,7 +16,7 @@ RULE = ("Program = [EQU defs] ORG o / LB NOP / <statement with the expression> /
         "and below 0. Enumerated: every position x op x 9x9 term-kind pairs on a boundary constant grid. Oracle: "
         "reference evaluation over Python integers (truncating division); x/0 must be a diagnostic; an 8-bit position "
         "holds r in -128..255 or is rejected; a 16-bit position holds r, or r mod 65536 / a rejection when r is outside "
-        "0..65535; decoded operand (reference decoder / data model) must equal it. Metamorphic: moving every EQU to the "
+        "0..65535; decoded operand (reference decoder / data model) must equal it. A second family uses one small symbol (label below $100 or EQU) several times in one program at different operand widths (#imm16, #imm8, <direct, >extended, index offset, [ ], FCB, FDB, FDB list) and checks every use. Metamorphic: moving every EQU to the "
         "other side of its use and re-spelling every constant leave the image unchanged. Non-trivial = expression with "
         ">= 1 symbol, or a symbol defined after its use, or a result within 1 of a width boundary; distinct by case hash.")
 ASSUMPTIONS = [
@@ -49,16 +49,36 @@ def enumerated(tier, seed):
         for lk in TERM_KINDS:
             for v in (0, 5, 255, 256, 4660, 65535):
                 yield dict(pos=pos, op="+", l=dict(k=lk, v=v, sp=v % 5), r=dict(k="dec", v=0, sp=0), org=ORGS[v % 5], single=True)
+    for case in _multi_cases():
+        yield case
+
+
+# one symbol used several times in one program, at different operand widths
+USES = ["imm16", "imm8", "direct", "extended", "mem", "idx", "extind", "fdb", "fcb", "fdblist"]
+
+
+def _multi_cases():
+    import itertools
+    for kind, v in (("lb", None), ("la", None), ("equ_before", 5), ("equ_after", 200), ("equ_before", 255)):
+        for org in (0x0000, 0x0010, 0x0070):
+            for uses in itertools.permutations(USES[:7], 2):
+                yield dict(pos="multi", kind=kind, v=v, org=org, uses=list(uses))
+            for uses in (["imm16", "imm8", "fdb", "fcb"], ["fcb", "fdb", "imm8", "imm16"], ["direct", "extended", "idx", "extind", "mem"],
+                         ["fdblist", "imm8", "imm16"], ["imm8", "fdblist", "direct"]):
+                yield dict(pos="multi", kind=kind, v=v, org=org, uses=uses)
 
 
 _const = st.one_of(st.sampled_from(CONSTS), st.integers(0, 65535), st.integers(0, 300))
 _term = st.fixed_dictionaries(dict(k=st.sampled_from(TERM_KINDS), v=_const, sp=st.integers(0, 7)))
+_multi = st.fixed_dictionaries(dict(pos=st.just("multi"), kind=st.sampled_from(["lb", "la", "equ_before", "equ_after"]),
+                                    v=st.integers(0, 255), org=st.sampled_from([0, 0x10, 0x40, 0x80]),
+                                    uses=st.lists(st.sampled_from(USES), min_size=2, max_size=6)))
 _case = st.fixed_dictionaries(dict(pos=st.sampled_from(POSITIONS), op=st.sampled_from(OPS), l=_term, r=_term,
                                    org=st.sampled_from(ORGS), single=st.sampled_from([False, False, False, True])))
 
 
 def searches(tier):
-    return [("expressions", _case, 80000 if tier == "quick" else 2000000)]
+    return [("expressions", _case, 80000 if tier == "quick" else 2000000), ("multi_use", _multi, 4000 if tier == "quick" else 100000)]
 
 
 def _equ_spelling(v, spi):
@@ -146,7 +166,74 @@ def build(case, swap_equ=False, respell=False):
     return lines, row, terms
 
 
+def build_multi(case):
+    """several statements that all use the same symbol SYM (a label below $100 or a small EQU); returns lines, uses"""
+    sym = {"lb": "ZZB", "la": "ZZA"}.get(case["kind"], "ZQM")
+    pre, post = [], []
+    if case["kind"].startswith("equ"):
+        (pre if case["kind"] == "equ_before" else post).append(A.line("ZQM", "EQU", str(case["v"])))
+    body = []
+    for u in case["uses"]:
+        body.append({"imm16": A.line("", "LDX", "#" + sym), "imm8": A.line("", "LDA", "#" + sym), "direct": A.line("", "LDA", "<" + sym),
+                     "extended": A.line("", "LDA", ">" + sym), "mem": A.line("", "LDB", sym), "idx": A.line("", "LDA", sym + ",X"),
+                     "extind": A.line("", "LDA", "[" + sym + "]"), "fdb": A.line("", "FDB", sym), "fcb": A.line("", "FCB", sym),
+                     "fdblist": A.line("", "FDB", "1," + sym + ",2")}[u])
+    lines = pre + [A.line("", "ORG", "$%04X" % case["org"]), A.line("ZZB", "NOP")] + body + [A.line("ZZA", "NOP")] + post
+    return lines, sym
+
+
+def execute_multi(case):
+    lines, sym = build_multi(case)
+    labels = ["pos:multi", "has_symbol"] + (["has_label"] if sym != "ZQM" else [])
+    out = driver.assemble(lines, timeout=60)
+    if out.kind in ("CRASH", "HANG"):
+        return skip("crash/hang: judged by C13", labels=labels)
+    ctx = " source={!r}".format([l.strip() for l in lines])
+    if out.kind == "DIAG":
+        # only allowed when the symbol's value cannot be below 256 (a label after 8-bit uses may pass $FF)
+        return viol("program using one small symbol several times rejected: {}.".format(out.message) + ctx, fid="C04:multi:rejected", labels=labels) \
+            if case["org"] + 4 * len(case["uses"]) + 2 < 256 else ok(labels=labels + ["rejected"], nontrivial=True)
+    syms = dict(out.symbols)
+    value = syms.get(sym)
+    if value is None:
+        return viol("symbol missing." + ctx, fid="C04:multi:symbols", labels=labels)
+    origin = out.origin or 0
+    pos = syms["ZZB"] + 1 - origin
+    image = out.image
+    for u in case["uses"]:
+        if u in ("fdb", "fcb", "fdblist"):
+            n = {"fdb": 2, "fcb": 1, "fdblist": 6}[u]
+            got = image[pos:pos + n]
+            want = {"fdb": value.to_bytes(2, "big"), "fcb": bytes([value & 0xFF]), "fdblist": b"\x00\x01" + value.to_bytes(2, "big") + b"\x00\x02"}[u]
+            if value > 255 and u == "fcb":
+                return viol("FCB of a value above 255 accepted." + ctx, fid="C04:multi:range", labels=labels)
+            if got != want:
+                return viol("use '{}' of {} = ${:X} emitted {}, expected {}.".format(u, sym, value, got.hex(), want.hex()) + ctx,
+                            fid="C04:multi:value", labels=labels)
+            pos += n
+            continue
+        insn = R.decode(image, pos)
+        if insn is None:
+            return viol("use '{}' of {}: bytes {} are not an instruction.".format(u, sym, image[pos:pos + 5].hex()) + ctx,
+                        fid="C04:multi:malformed", labels=labels)
+        nf = insn.nf
+        got = nf[1] if nf[0] in ("imm", "mem") else nf[3]
+        okay = {"imm16": nf[0] == "imm" and nf[2] == 2, "imm8": nf[0] == "imm" and nf[2] == 1, "direct": nf[0] == "mem" and nf[2] == "dir",
+                "extended": nf[0] == "mem" and nf[2] == "ext", "mem": nf[0] == "mem", "idx": nf[0] == "idx" and nf[2] == "off" and nf[1] == "X",
+                "extind": nf[0] == "idx" and nf[2] == "extind"}[u]
+        if not okay or got != value:
+            return viol("use '{}' of {} = ${:X}: bytes {} decode as {}.".format(u, sym, value, image[pos:pos + insn.length].hex(), nf) + ctx,
+                        fid="C04:multi:value", labels=labels)
+        pos += insn.length
+    if pos != syms["ZZA"] - origin:
+        return viol("statements add up to {} bytes but the label after them is at offset {}.".format(pos, syms["ZZA"] - origin) + ctx,
+                    fid="C04:multi:layout", labels=labels)
+    return ok(labels=labels, nontrivial=True)
+
+
 def render(case):
+    if case["pos"] == "multi":
+        return dict(case=case, source=[l.rstrip("\n") for l in build_multi(case)[0]])
     lines, row, terms = build(case)
     return dict(case=case, source=[l.rstrip("\n") for l in lines])
 
@@ -172,6 +259,8 @@ def evaluate(case, terms, lb, la):
 
 
 def execute(case):
+    if case["pos"] == "multi":
+        return execute_multi(case)
     pos = case["pos"]
     lines, row, terms = build(case)
     kinds = [t[1] for t in terms]
